@@ -6,7 +6,10 @@
 #include <unistd.h>
 #include <algorithm>
 
-extern "C" void __tsan_on_report(void *) __attribute__((weak));
+// The oracle's own white-box reads go through instrumented c-ares accessors; they are made while every thread is blocked
+// (or by the thread holding the baton) and must not be mistaken by TSan for unsynchronised reads of the library.
+extern "C" void AnnotateIgnoreReadsBegin(const char *, int) __attribute__((weak));
+extern "C" void AnnotateIgnoreReadsEnd(const char *, int) __attribute__((weak));
 
 namespace {
 
@@ -37,7 +40,10 @@ void ops_advance(int64_t t) {
     Chan &c = run.chans.empty() ? *(Chan *)nullptr : run.chans[0];
     if (!run.chans.empty() && c.alive && !c.destroying && c.ch) {
       long long dl = 0;
-      if (peek_earliest_deadline(c.ch, &dl)) {
+      if (AnnotateIgnoreReadsBegin) AnnotateIgnoreReadsBegin(__FILE__, __LINE__);
+      int have_dl = peek_earliest_deadline(c.ch, &dl);
+      if (AnnotateIgnoreReadsEnd) AnnotateIgnoreReadsEnd(__FILE__, __LINE__);
+      if (have_dl) {
         // rounding of the hint (+1 ms, truncated microseconds); in "slow machine" runs the clock steps taken while threads were
         // runnable may lie between the event thread's hint computation and its wait call, so all of them count as slack
         // (those runs still catch a wait without any deadline)
